@@ -41,6 +41,7 @@ def set_world(w) -> None:
     _STATE["log"] = []
     _STATE["depth"] = 0
     _STATE["calls"] = 0
+    _STATE["phase"] = "library"
 
 
 # ------------------------------------------------------------------------------------------------ random choice recorder
@@ -102,6 +103,19 @@ class Contract:
         return []
 
 
+LIB_CPU_S = 240     # CPU seconds one outermost library call may burn (all threads) before it is reported as non-terminating
+
+
+def _arm(seconds: float) -> None:
+    """(dis)arms the CPU-time watchdog of the current library call; the handler is installed by cells.run_cell"""
+    import signal
+    try:
+        if _STATE.get("watchdog"):
+            signal.setitimer(signal.ITIMER_PROF, seconds)
+    except (ValueError, AttributeError, OSError):
+        pass
+
+
 def _wrap(cls, name: str, contract: Contract):
     real = cls.__dict__[name] if name in cls.__dict__ else getattr(cls, name)
 
@@ -114,6 +128,7 @@ def _wrap(cls, name: str, contract: Contract):
                 return real(self, *args, **kwargs)
             finally:
                 _STATE["depth"] -= 1
+        _STATE["phase"] = "contract"
         old = W.snapshot(w)
         label = f"{cls.__name__}.{name}"
         ghost = None
@@ -125,12 +140,16 @@ def _wrap(cls, name: str, contract: Contract):
         _STATE["calls"] += 1
         exc = None
         result = None
+        _STATE["phase"] = "library"
+        _arm(LIB_CPU_S)
         try:
             result = real(self, *args, **kwargs)
         except Exception as ex:
             exc = ex
         finally:
+            _arm(0)
             _STATE["depth"] -= 1
+            _STATE["phase"] = "contract"
         new = W.snapshot(w)
         try:
             if exc is None:
@@ -142,12 +161,25 @@ def _wrap(cls, name: str, contract: Contract):
         for c in cl:
             c.method = c.method or label
             log().append(c)
+        _STATE["phase"] = "library"
         if exc is not None:
             raise exc
         return result
 
     wrapper.__verif_real__ = real
     return real, wrapper
+
+
+class unchecked:
+    """library calls made inside this block pass through the wrappers unchecked (scratch objects outside the world)"""
+
+    def __enter__(self):
+        _STATE["depth"] += 1
+        return self
+
+    def __exit__(self, *a):
+        _STATE["depth"] -= 1
+        return False
 
 
 class Installed:
